@@ -467,7 +467,7 @@ meta("C17", level="exploration",
      rule="one fresh process per global-client configuration (prefix class x default tags x default container x sink behaviour accept/refuse/alternate x handler present x UNSET); inside, "
           "all 7 macros x all 22 accepted value types x tag arities 0,1,2,3,6 with run-time random strings; every argument is a block expression bumping its own counter and taking an order stamp (arguments must be evaluated once each, in the order key, value, tag pairs left to right, as the explicit chain does); a macro used from inside the client's own error handler must send. Oracle: "
           "differential against the explicit chain get_global_default().unwrap().<kind>_with_tags(k, v).with_tag(..)...send() run back to back on the same client (same line, one emit each, "
-          "same handler traffic), the reference formatter of C01 with the client's defaults, every argument evaluated exactly once, failures only in the handler log (same error), panic iff "
+          "same handler traffic; the reference formatter of C01 only counts here, how a line is formatted is not C17's business), every argument evaluated exactly once, failures only in the handler log (same error), panic iff "
           "no client set - including macros tried BEFORE the set on the main thread and on another thread (they must panic, and the same threads must work after the set), and macros on threads "
           "spawned after the set -, a second set_global_default is ignored. Second observer: macro_miri (global client set once, a second set ignored, all 7 macros from 1-4 threads, lines equal to the explicit chains) under Miri with 16 (quick) / 4x64 (thorough) seeds: spurious compare-exchange failures, weak memory, data races and UB on the set-once path. distinct = (macro, value type, tag arity, sink behaviour, handler, set/unset)",
      assumptions=["tag arities above 6 are not driven (the macro repetition is uniform)", "the global can be set once per process, hence one process per configuration"],
